@@ -38,6 +38,9 @@
 //	restart-scale   30–60 restart cycles on one proxy of the full client with objqueuemax 8–16, calls
 //	                attempted while the server is down (failed sends), two judged calls after each
 //	                restart (notify.go)
+//	burst           4–8 callers released together (barrier) on one TarsClient at the first connect and
+//	                after every noticed close (FIN, RST, server idle, restart, notification); the
+//	                server takes a few ms per request so that requests are outstanding
 //	idle-scale      25–40 server idle-close / reconnect cycles on one transport client
 package main
 
@@ -81,16 +84,18 @@ type Scenario struct {
 	DelayMs      int    `json:"delay_ms"`       // between the client having observed the close and the next call
 	ClientIdleMs int    `json:"client_idle_ms"` // the client's IdleTimeout (0: one hour)
 	QueueLen     int    `json:"queue_len"`
-	Rounds       int    `json:"rounds"`                 // free/timely: close / call rounds
-	HasCallback  bool   `json:"has_callback,omitempty"` // notify-linger: the client registered a push callback
-	LingerMs     int    `json:"linger_ms,omitempty"`    // notify-linger: the server closes the old connection this long after the notification
-	ExtraPush    bool   `json:"extra_push,omitempty"`   // notify-linger: an ordinary push precedes the notification
-	OneWays      int    `json:"one_ways,omitempty"`     // notify-linger: one-way calls (never answered) before the first notification
-	Restarts     int    `json:"restarts,omitempty"`     // notify-linger: graceful restarts in a row (0 = 1)
-	GapMs        int    `json:"gap_ms,omitempty"`       // notify-linger: the next notification this long after the previous one
-	QueueMax     int    `json:"queue_max,omitempty"`    // restart-scale: the client's objqueuemax
-	Cycles       int    `json:"cycles,omitempty"`       // restart-scale / idle-scale: restart (idle close) cycles
-	DownCalls    int    `json:"down_calls,omitempty"`   // restart-scale: calls attempted during each down window
+	Rounds       int    `json:"rounds"`                   // free/timely: close / call rounds
+	HasCallback  bool   `json:"has_callback,omitempty"`   // notify-linger: the client registered a push callback
+	LingerMs     int    `json:"linger_ms,omitempty"`      // notify-linger: the server closes the old connection this long after the notification
+	ExtraPush    bool   `json:"extra_push,omitempty"`     // notify-linger: an ordinary push precedes the notification
+	OneWays      int    `json:"one_ways,omitempty"`       // notify-linger: one-way calls (never answered) before the first notification
+	Restarts     int    `json:"restarts,omitempty"`       // notify-linger: graceful restarts in a row (0 = 1)
+	GapMs        int    `json:"gap_ms,omitempty"`         // notify-linger: the next notification this long after the previous one
+	QueueMax     int    `json:"queue_max,omitempty"`      // restart-scale: the client's objqueuemax
+	Cycles       int    `json:"cycles,omitempty"`         // restart-scale / idle-scale: restart (idle close) cycles
+	DownCalls    int    `json:"down_calls,omitempty"`     // restart-scale: calls attempted during each down window
+	Burst        int    `json:"burst,omitempty"`          // burst: callers released together (barrier) at the first connect and after every close
+	ServerWorkMs int    `json:"server_work_ms,omitempty"` // the server takes this long over every request
 }
 
 type callResult struct {
@@ -138,6 +143,7 @@ type world struct {
 	conns      []*srvConn
 	closeAfter map[uint32]string // request id → close mode after its response
 	addr       string
+	port       *reservedPort
 	restarted  chan struct{}
 	notifyAt   map[uint32]bool
 	connIdx    map[net.Conn]int // client side: first-sight order
@@ -203,11 +209,11 @@ func (w *world) note(f string, a ...interface{}) {
 }
 
 func newWorld(sc Scenario) (*world, error) {
-	ln, err := net.Listen("tcp", "127.0.0.1:0")
+	ln, rp, err := listenReserved()
 	if err != nil {
 		return nil, err
 	}
-	w := &world{sc: sc, ln: ln, addr: ln.Addr().String(), restarted: make(chan struct{}), closeAfter: map[uint32]string{}, notifyAt: map[uint32]bool{},
+	w := &world{sc: sc, ln: ln, port: rp, addr: ln.Addr().String(), restarted: make(chan struct{}), closeAfter: map[uint32]string{}, notifyAt: map[uint32]bool{},
 		connIdx: map[net.Conn]int{}, gates: map[string]*gate{}, pending: map[uint32]chan struct{}{},
 		triggers: map[string]func(){}, tokCount: map[string]int{}}
 	w.p = &proto{w}
@@ -272,7 +278,7 @@ func (w *world) restart(done chan struct{}) {
 	}
 	time.Sleep(60 * time.Millisecond)
 	for i := 0; i < 200; i++ {
-		ln2, err := net.Listen("tcp", w.addr)
+		ln2, err := w.port.listen()
 		if err == nil {
 			w.mu.Lock()
 			w.ln = ln2
@@ -304,7 +310,17 @@ func (w *world) serve(sc *srvConn) {
 	buf := make([]byte, 8)
 	for {
 		if w.sc.CloseHow == "server-idle" && w.sc.ServerIdleMs > 0 {
-			_ = sc.c.SetReadDeadline(time.Now().Add(time.Duration(w.sc.ServerIdleMs) * time.Millisecond))
+			// the idle period counts from the last request: a connection that has just been accepted is
+			// given time for its first request (closing it under the request that is on its way would
+			// be a close concurrent with the call, not one the call is issued after)
+			w.mu.Lock()
+			fresh := len(sc.reqs) == 0
+			w.mu.Unlock()
+			d := time.Duration(w.sc.ServerIdleMs) * time.Millisecond
+			if fresh {
+				d += 2 * time.Second
+			}
+			_ = sc.c.SetReadDeadline(time.Now().Add(d))
 		}
 		_, err := io.ReadFull(sc.c, buf)
 		if err != nil {
@@ -332,6 +348,9 @@ func (w *world) serve(sc *srvConn) {
 		notify := w.notifyAt[id]
 		restartDone := w.restarted
 		w.mu.Unlock()
+		if w.sc.ServerWorkMs > 0 {
+			time.Sleep(time.Duration(w.sc.ServerWorkMs) * time.Millisecond)
+		}
 		_, _ = sc.c.Write(frame(id)) // the server answers every request it receives
 		if notify {
 			_, _ = sc.c.Write(frame(0))
@@ -476,12 +495,20 @@ func (w *world) waitState(d time.Duration, pred func(transport.VerifClientState)
 
 // startCall issues a call; the result arrives on the returned channel.
 func (w *world) startCall(id uint32, judged bool) <-chan callResult {
+	return w.startCallGated(id, judged, nil)
+}
+
+// startCallGated: the caller goroutine waits at the barrier `gate` (if any) before it issues the call
+func (w *world) startCallGated(id uint32, judged bool, gate <-chan struct{}) <-chan callResult {
 	out := make(chan callResult, 1)
 	ch := make(chan struct{})
 	w.mu.Lock()
 	w.pending[id] = ch
 	w.mu.Unlock()
 	go func() {
+		if gate != nil {
+			<-gate
+		}
 		t0 := time.Now()
 		w.rec(fmt.Sprintf("B.%d", id))
 		err := w.tc.Load().Send(frame(id))
@@ -575,6 +602,7 @@ func (w *world) probeJudge(label string, out *outcome) probe {
 
 func (w *world) finish(out *outcome) {
 	_ = w.ln.Close()
+	defer w.port.release()
 	w.mu.Lock()
 	out.hist = append([]string(nil), w.hist...)
 	out.clients = w.clients
@@ -847,6 +875,57 @@ func execute(sc Scenario) (out outcome) {
 		time.Sleep(settle)
 		w.probeJudge("end", &out)
 
+	case "burst":
+		// N callers are released together on one TarsClient: at the very first connect and after every
+		// server-initiated close the client has noticed. All of them find the client closed at about
+		// the same time; exactly one may dial.
+		n := sc.Burst
+		if n < 2 {
+			n = 4
+		}
+		burst := func() {
+			gate := make(chan struct{})
+			var chs []<-chan callResult
+			for i := 0; i < n; i++ {
+				chs = append(chs, w.startCallGated(id(), true, gate))
+			}
+			time.Sleep(2 * time.Millisecond) // every caller stands at the barrier
+			close(gate)
+			for _, ch := range chs {
+				wait(ch)
+			}
+		}
+		burst()
+		rounds := sc.Rounds
+		if rounds < 1 {
+			rounds = 1
+		}
+		for r := 0; r < rounds && out.hang == ""; r++ {
+			c := id()
+			trigger(c)
+			wait(w.startCall(c, true))
+			afterTrigger()
+			if sc.CloseHow == "notify" {
+				deadline := time.Now().Add(observeWait)
+				for time.Now().Before(deadline) {
+					w.mu.Lock()
+					k := w.clients
+					w.mu.Unlock()
+					if k >= r+2 {
+						break
+					}
+					time.Sleep(time.Millisecond)
+				}
+			} else if !w.observeClose(&out) {
+				break
+			}
+			time.Sleep(delay)
+			burst()
+		}
+		if sc.CloseHow != "server-idle" && sc.CloseHow != "notify" {
+			w.probeJudge("end", &out)
+		}
+
 	case "idle-scale":
 		// many idle-close / reconnect cycles on one client: the server closes every connection after
 		// ServerIdleMs without a request; each next call is issued as soon as the client has noticed
@@ -983,7 +1062,7 @@ func oracle(o *outcome) []finding {
 		}
 	}
 	// O4: no reconnect without a connection loss (only where the client's idle close is out of reach)
-	if o.sc.ClientIdleMs == 0 && o.sc.Kind != "unobserved" {
+	if o.sc.ClientIdleMs == 0 && o.sc.Kind != "unobserved" && !(o.sc.Kind == "burst" && o.sc.CloseHow == "notify") {
 		losses := 0
 		for _, s := range o.srv {
 			if s.ClosedBySrv {
@@ -1021,6 +1100,16 @@ func oracle(o *outcome) []finding {
 	for _, p := range o.probes {
 		if p.Label == "end" && o.sc.Kind != "unobserved" && (p.P.SendQ > 0 || p.P.FailQ > 0) {
 			add("C11:request-parked:end", fmt.Sprintf("at the end sendQ=%d failQ=%d", p.P.SendQ, p.P.FailQ))
+		}
+	}
+	// O7: the client never closes a healthy connection that carried requests (it may only close what
+	// the server has left, and its own idle connections): the server saw the CLIENT end a connection
+	// it had neither closed nor announced as closing
+	if o.sc.ClientIdleMs == 0 && o.sc.CloseHow != "notify" && o.sc.Kind != "notify" && o.sc.Kind != "unobserved" {
+		for _, sv := range o.srv {
+			if sv.SawEOF && !sv.ClosedBySrv && len(sv.Reqs) > 0 {
+				add("C11:healthy-conn-closed:by-client", fmt.Sprintf("connection %d, on which the server had received %d requests and which it had not closed, was closed by the client", sv.K, len(sv.Reqs)))
+			}
 		}
 	}
 	// O6: the client notices a server-side close (its receiver reads EOF and runs close) — otherwise
@@ -1099,6 +1188,13 @@ func genScenarios(o *common.Opts, rng *rand.Rand) []Scenario {
 		}
 		scs = append(scs, Scenario{Kind: "notify-linger", CloseHow: "notify-linger", HasCallback: rng.Intn(2) == 0, ExtraPush: true, OneWays: 2 + rng.Intn(2), Restarts: 3,
 			GapMs: 100 + rng.Intn(700), PreCalls: 1, DelayMs: 50 + rng.Intn(101), LingerMs: 500 + rng.Intn(301)})
+		// bursts: 4–8 callers released together at the first connect and after every noticed close
+		for _, how := range []string{"response", "rst", "server-idle", "restart", "notify"} {
+			scs = append(scs, Scenario{Kind: "burst", CloseHow: how, ServerIdleMs: 250, Burst: 4 + rng.Intn(5), ServerWorkMs: 5 + rng.Intn(16),
+				Rounds: 2 + rng.Intn(3), DelayMs: rng.Intn(3)})
+		}
+		scs = append(scs, Scenario{Kind: "burst", CloseHow: "response", Burst: 4, ServerWorkMs: 5 + rng.Intn(6), Rounds: 2, DelayMs: 0})
+		scs = append(scs, Scenario{Kind: "burst", CloseHow: "rst", Burst: 3, ServerWorkMs: 5 + rng.Intn(6), Rounds: 3, DelayMs: rng.Intn(2)})
 		// scale: tens of restart cycles on one proxy with a small objqueuemax, calls while the server is
 		// down; tens of idle-close / reconnect cycles on one transport client
 		scs = append(scs, Scenario{Kind: "restart-scale", CloseHow: "restart", QueueMax: 8 + rng.Intn(9), Cycles: 30 + rng.Intn(31), DownCalls: 1 + rng.Intn(2)})
@@ -1247,7 +1343,7 @@ func main() {
 		if fullClientKind(scs[i].Kind) {
 			continue
 		}
-		if out.sc.Kind == "notify" || !out.connsOK || strings.Contains(strings.Join(out.hist, " "), "E.") {
+		if out.sc.Kind == "notify" || out.sc.CloseHow == "notify" || out.sc.Burst > 3 || !out.connsOK || strings.Contains(strings.Join(out.hist, " "), "E.") {
 			continue
 		}
 		idle := b01(out.sc.ClientIdleMs > 0)
